@@ -653,4 +653,132 @@ theorem run_kmsg (v : Variant) (sched : List Step) (s : St) :
       simp only
       rw [ih s', step_kmsg v s s' e hs, List.append_assoc]
 
+/-! ### progress of the flusher once the stop flag is set -/
+
+theorem run_write1_all (v : Variant) (q : List Msg) (s : St) (hq : s.otherQ = q) (h : s.pc = .writing) :
+    run v s (List.replicate q.length .write1)
+      = { s with sink := s.sink ++ q.map Out.line, otherQ := [] } := by
+  induction q generalizing s with
+  | nil =>
+    cases s
+    simp_all [run]
+  | cons m rest ih =>
+    have hs : step v s .write1 = some { s with sink := s.sink ++ [.line m], otherQ := rest } := by
+      simp [step, h, hq]
+    simp only [List.length_cons, List.replicate_succ, run, hs]
+    have := ih { s with sink := s.sink ++ [.line m], otherQ := rest } rfl h
+    rw [this]
+    simp [List.append_assoc]
+
+theorem run_write1_idle (v : Variant) (n : Nat) (s : St) (h : s.pc ≠ .writing) :
+    run v s (List.replicate n .write1) = s := by
+  induction n with
+  | zero => rfl
+  | succ k ih =>
+    have hs : step v s .write1 = none := by
+      simp only [step]
+      split
+      · rename_i hp _; exact absurd hp h
+      · rfl
+    simp only [List.replicate_succ, run, hs]
+    exact ih
+
+/-- from `writing`, the flusher alone finishes the batch -/
+theorem run_finish_batch (v : Variant) (s : St) (h : s.pc = .writing) :
+    let s' := run v s (List.replicate s.otherQ.length .write1 ++ [.report, .release])
+    s'.pc = (if s.lastRunning then .idle else .exited) ∧ s'.running = s.running ∧ s'.curQ = s.curQ := by
+  simp only [run_append, run_write1_all v s.otherQ s rfl h]
+  cases hr : v.releaseAtSwap <;> cases hl : s.lastRunning <;> simp [run, step, h, hr]
+
+def isIoStep (e : Step) : Bool :=
+  match e with
+  | .swap | .write1 | .report | .release => true
+  | _ => false
+
+/-- once the stop flag is set, the flusher can always run to completion on its own -/
+theorem flusher_completes (v : Variant) (s : St) (hstop : s.running = false) :
+    ∃ sched : List Step, sched.all isIoStep = true ∧ (run v s sched).pc = .exited := by
+  -- from `idle`: swap (enabled because the flag is down), then finish that batch
+  have fromIdle : ∀ s : St, s.running = false → s.pc = .idle →
+      ∃ sched : List Step, sched.all isIoStep = true ∧ (run v s sched).pc = .exited := by
+    intro s hr hp
+    have hs : ∃ s1, step v s .swap = some s1 ∧ s1.pc = .writing ∧ s1.lastRunning = false := by
+      simp [step, hp, hr]
+    obtain ⟨s1, h1, hp1, hl1⟩ := hs
+    refine ⟨.swap :: (List.replicate s1.otherQ.length .write1 ++ [.report, .release]), ?_, ?_⟩
+    · simp [isIoStep, List.all_append, List.all_replicate]
+    · simp only [run, h1]
+      have := (run_finish_batch v s1 hp1).1
+      simpa [hl1] using this
+  cases hp : s.pc with
+  | exited => exact ⟨[], rfl, hp⟩
+  | idle => exact fromIdle s hstop hp
+  | writing =>
+    obtain ⟨h1, h2, _⟩ := run_finish_batch v s hp
+    cases hl : s.lastRunning with
+    | false =>
+      exact ⟨List.replicate s.otherQ.length .write1 ++ [.report, .release],
+        by simp [isIoStep, List.all_append, List.all_replicate], by simpa [hl] using h1⟩
+    | true =>
+      obtain ⟨sched2, ha, hx⟩ := fromIdle _ (h2.trans hstop) (by simpa [hl] using h1)
+      refine ⟨(List.replicate s.otherQ.length .write1 ++ [.report, .release]) ++ sched2, ?_, ?_⟩
+      · simp [isIoStep, List.all_append, List.all_replicate, ha]
+      · rw [run_append]; exact hx
+  | releasing =>
+    have hs : ∃ s1, step v s .release = some s1 ∧ s1.pc = (if s.lastRunning then .idle else .exited)
+        ∧ s1.running = s.running := by
+      simp [step, hp]
+    obtain ⟨s1, h1, hp1, hr1⟩ := hs
+    cases hl : s.lastRunning with
+    | false => exact ⟨[.release], rfl, by simpa [run, h1, hl] using hp1⟩
+    | true =>
+      obtain ⟨sched2, ha, hx⟩ := fromIdle s1 (hr1.trans hstop) (by simpa [hl] using hp1)
+      exact ⟨.release :: sched2, by simp [isIoStep, ha], by simpa [run, h1] using hx⟩
+
+theorem enq_atStop (v : Variant) (s : St) (m : Msg) : (enq v s m).atStop = s.atStop := by
+  unfold enq; split <;> rfl
+
+/-- the snapshot taken at the first `stop` never changes afterwards -/
+theorem step_atStop (v : Variant) (s s' : St) (e : Step) (a : List Msg) (ha : s.atStop = some a)
+    (hs : step v s e = some s') : s'.atStop = some a := by
+  cases e with
+  | debugLog m => simp only [step, Option.some.injEq] at hs; subst hs; simpa [enq_atStop] using ha
+  | stmt tid seq toks =>
+    simp only [step] at hs
+    split at hs <;> simp only [Option.some.injEq] at hs <;> subst hs <;> simpa [enq_atStop] using ha
+  | kmsgWrite m => simp only [step, Option.some.injEq] at hs; subst hs; exact ha
+  | swap =>
+    simp only [step] at hs
+    split at hs
+    · cases hs
+    · split at hs
+      · cases hs
+      · simp only [Option.some.injEq] at hs; subst hs; exact ha
+  | write1 =>
+    simp only [step] at hs
+    split at hs
+    · simp only [Option.some.injEq] at hs; subst hs; exact ha
+    · cases hs
+  | report =>
+    simp only [step] at hs
+    split at hs
+    · simp only [Option.some.injEq] at hs; subst hs; exact ha
+    · cases hs
+  | release =>
+    simp only [step] at hs
+    split at hs
+    · simp only [Option.some.injEq] at hs; subst hs; exact ha
+    · cases hs
+  | stop => simp only [step, Option.some.injEq] at hs; subst hs; simp [ha]
+
+theorem run_atStop (v : Variant) (sched : List Step) (s : St) (a : List Msg) (ha : s.atStop = some a) :
+    (run v s sched).atStop = some a := by
+  induction sched generalizing s with
+  | nil => exact ha
+  | cons e r ih =>
+    simp only [run]
+    cases hs : step v s e with
+    | none => exact ih s ha
+    | some s' => exact ih s' (step_atStop v s s' e a ha hs)
+
 end OomdModel.Log
